@@ -12,6 +12,7 @@ from __future__ import annotations
 import copy
 
 import mpmath
+import numpy
 from mpmath import mpf
 
 from .. import backends as B
@@ -289,6 +290,12 @@ def run_shard(spec, tier, seed):
                     "*= None": lambda x: x.__imul__(None),
                     "+= None": lambda x: x.__iadd__(None),
                 }
+                if not mp_mode:
+                    # a result that is not a single vector cannot be assigned: TypeError, object untouched
+                    arr = B.mk_numpy_cls(R.SYSTEMS[dim][0], [B.obj_stored(same_dim)[1]] * 2, False)
+                    fails["+= numpy vector array"] = lambda x: x.__iadd__(arr)
+                    fails["-= numpy vector array"] = lambda x: x.__isub__(arr)
+
                 fname = r.choice(list(fails))
                 hist.append(f"FAIL {fname}")
                 raised = None
